@@ -30,10 +30,11 @@ def main():
         rc = 2
     # 3. the Go harness (warms the build cache; checks rebuild incrementally from /repo's working tree)
     ctx = vlib.Ctx("_setup")
-    try:
-        ctx.build_harness()
-    except vlib.Undecided as e:
-        print("setup:", e)
-        rc = 2
+    for d in sorted(os.listdir(os.path.join(vlib.HARNESS, "cmd"))):
+        try:
+            ctx.build_harness(d)
+        except vlib.Undecided as e:
+            print("setup:", e)
+            rc = 2
     print("setup: %s" % ("ok" if rc == 0 else "FAILED"))
     return rc
